@@ -66,7 +66,10 @@ def file_family(tier):
 
 def cases(tier, seed):
     for c in file_family(tier):
-        yield dict(kind='file', layout=c)
+        # every value of every offset field (0 .. file length + 2) on the base layouts and, in the thorough tier, on every layout within
+        # one deviation; paired shifts of begin/end offsets on all files
+        sweep = c.get('_dev', 9) == 0 or (c.get('stext') and c.get('analysis')) or (tier == 'thorough' and c.get('_dev', 9) <= 1)
+        yield dict(kind='file', layout=c, sweep=bool(sweep))
     yield dict(kind='empty')
 
 
@@ -81,6 +84,10 @@ SHIFTED = ('$BEGINDATA', '$ENDDATA', '$BEGINSTEXT', '$ENDSTEXT', '$BEGINANALYSIS
 
 
 def op_apply(v, op, far):
+    if op.startswith('set:'):
+        return int(op[4:])
+    if op.startswith('shift:'):
+        return v + int(op[6:])
     return {'-1': v - 1, '+1': v + 1, 'x2': v * 2, '/2': v // 2, '0': 0, 'far': far, '-2': v - 2, '-3': v - 3, '-5': v - 5, '+2': v + 2, '+7': v + 7}[op]
 
 
@@ -95,6 +102,15 @@ def load(path):
             return 'ok', dict(d.text), dict(d.analysis), ev, [str(x.message) for x in w], tuple(d.shape)
     except Exception as e:
         return ('err', type(e).__name__)
+
+
+def _tol_equal(ref_text, got_text, damaged):
+    """equality of keyword dictionaries under the tolerated ending: a value may have lost trailing delimiters"""
+    try:
+        dch = chr(damaged[int(damaged[10:18])])
+    except Exception:
+        dch = '/'
+    return set(ref_text) == set(got_text) and all(ref_text[k].rstrip(dch) == got_text[k].rstrip(dch) for k in ref_text)
 
 
 def judge(res, what, sig, damaged, intact, one, rewritten=()):
@@ -129,10 +145,28 @@ def judge(res, what, sig, damaged, intact, one, rewritten=()):
                                                           (rr['analysis_status'] == 'unparseable' and analysis == {})):
             res.ok('self-consistent-other-file', True)
             return
+        if any('ill-formed TEXT segment' in w for w in warns):
+            # the tolerant reading of TEXT-like segments (the C14-tolerated ending), which the loader announced
+            try:
+                rt = fcsgen.refread(damaged, tolerant=True)
+            except fcsgen.RefError:
+                rt = None
+            if rt is not None and _tol_equal(rt['text'], text, damaged) and rt['events'] == ev and (_tol_equal(rt['analysis'], analysis, damaged) or (rt['analysis_status'] == 'unparseable' and analysis == {})):
+                res.ok('self-consistent-other-file:tolerated-ending', True)
+                return
         res.violation(sig + ':differs-from-reference-reading',
                       '%s: the damaged file is a well-formed file that reads as shape %dx%d but the loader returned shape %s / other content' % (
                           what, len(rr['events']), rr['D'], shape), one)
         return
+    # the same question under the tolerant reading of TEXT-like segments (the C14-tolerated ending), which the loader must announce
+    if any('ill-formed TEXT segment' in w for w in warns):
+        try:
+            rt = fcsgen.refread(damaged, tolerant=True)
+        except fcsgen.RefError:
+            rt = None
+        if rt is not None and _tol_equal(rt['text'], text, damaged) and rt['events'] == ev and (_tol_equal(rt['analysis'], analysis, damaged) or (rt['analysis_status'] == 'unparseable' and analysis == {})):
+            res.ok('self-consistent-other-file:tolerated-ending', True)
+            return
     # documented degradations, each announced by its warning: (i) the C14-tolerated ending (a TEXT-like
     # segment ends in an even delimiter run): the last value may lose trailing delimiters, everything else
     # must be identical; (ii) an ANALYSIS segment that cannot be parsed gives an empty analysis dictionary
@@ -287,5 +321,41 @@ def run_case(c):
             fname = re.sub(r'\d+', 'n', field)
             judge(res, 'field %s changed by %s' % (field, op), 'field:%s:%s' % (fname, op), dmg, intact, one, rewritten=rew)
             res.counters['field_corruptions'] += 1
-    res.sample({'layout': lc, 'file_bytes': len(buf), 'cut_points': len(buf), 'fields': fields})
+    offset_fields = ['h_text_begin', 'h_text_end', 'h_data_begin', 'h_data_end']
+    if lay['version'] != 'FCS2.0':
+        offset_fields += ['$BEGINDATA', '$ENDDATA', '$BEGINSTEXT', '$ENDSTEXT', '$BEGINANALYSIS', '$ENDANALYSIS']
+    # (b) paired shifts: both offsets of one segment moved by the same amount (a stale or displaced copy of the offsets)
+    rowbytes = max(1, sum(lay['bits']) // 8)
+    pairs = [('h_text_begin', 'h_text_end'), ('h_data_begin', 'h_data_end')]
+    if lay['version'] != 'FCS2.0':
+        pairs += [('$BEGINDATA', '$ENDDATA'), ('$BEGINSTEXT', '$ENDSTEXT'), ('$BEGINANALYSIS', '$ENDANALYSIS')]
+    for fa, fb in pairs:
+        for delta in (-rowbytes, rowbytes, -1, 1, -2, 2, 16, -16, 2 * rowbytes):
+            op = 'shift:%d' % delta
+            if fault is not None and fault != ['pair', fa, fb, op]:
+                continue
+            r1 = patch_field(buf, info, fa, op, lay)
+            if r1 is None:
+                continue
+            r2 = patch_field(r1[0], info, fb, op, lay)
+            if r2 is None:
+                continue
+            one = dict(kind='file', layout=lc, fault=['pair', fa, fb, op])
+            judge(res, 'fields %s and %s both shifted by %d' % (fa, fb, delta), 'pair:%s:%s' % (re.sub(r'\d+', 'n', fa), 'row' if abs(delta) % rowbytes == 0 else 'bytes'),
+                  r2[0], intact, one, rewritten=tuple(set(r1[1]) | set(r2[1])))
+            res.counters['paired_shifts'] += 1
+    # (c) every value of every offset field
+    if c.get('sweep') or (fault is not None and fault[0] == 'set'):
+        for field in offset_fields:
+            for v in range(0, len(buf) + 3):
+                op = 'set:%d' % v
+                if fault is not None and fault != ['set', field, v]:
+                    continue
+                r = patch_field(buf, info, field, op, lay)
+                if r is None:
+                    continue
+                one = dict(kind='file', layout=lc, fault=['set', field, v])
+                judge(res, 'field %s set to %d' % (field, v), 'set:%s' % re.sub(r'\d+', 'n', field), r[0], intact, one, rewritten=r[1])
+                res.counters['offset_values_swept'] += 1
+    res.sample({'layout': lc, 'file_bytes': len(buf), 'cut_points': len(buf), 'fields': fields, 'offset_sweep': bool(c.get('sweep'))})
     return res
